@@ -1,5 +1,5 @@
 reg("C18", "data transforms and their inverses compose to the identity",
-    parts=[dict(harness="c18_transforms", cases=dict(quick=1500, thorough=30000), timeout_case=20)],
+    parts=[dict(harness="c18_transforms", cases=dict(quick=3000, thorough=100000), timeout_case=20)],
     rule="case = one transform family in {Hermite anamorphosis, empirical anamorphosis (normal score / gaussian / lognormal dilution), "
          "Hermite polynomials, PCA, MAF, normal score, rotation} with a data set drawn from the case PRNG (lognormal / bimodal / "
          "uniform / exponential / gaussian, optional ties, TEST values, selection, weights; n 20-2000; Hermite orders 3-100; "
@@ -7,11 +7,14 @@ reg("C18", "data transforms and their inverses compose to the identity",
          "transform reports, with tolerance = bisection tolerance x local slope (Hermite), interpolation round-off (empirical), "
          "c.eps.kappa (PCA/MAF); orthonormality by Gauss-Hermite quadrature in long double; distinct = distinct (family, "
          "distribution, ties, TEST, options) signatures with >= 1 oracle evaluation",
-    require=dict(distinct=60, oracles=dict(quick={"hermite-z2y2z": 5000, "hermite-monotone": 100, "hpoly-orthonormal": 40,
-                                                  "pca-z2f2z": 50, "maf-z2f2z": 30, "nscore-quantile": 1000, "rotation-roundtrip": 400,
-                                                  "empirical-z2y2z": 800},
-                                           thorough={"hermite-z2y2z": 100000, "hermite-monotone": 2000, "hpoly-orthonormal": 800,
-                                                     "pca-z2f2z": 1000, "maf-z2f2z": 600, "nscore-quantile": 20000,
-                                                     "rotation-roundtrip": 8000, "empirical-z2y2z": 16000})),
+    require=dict(distinct=200, oracles=dict(quick={"hermite-z2y2z": 30000, "hermite-y2z2y": 8000, "hermite-forward": 4000, "hermite-monotone": 400,
+                                                   "hermite-db-z": 6000, "hpoly-orthonormal": 120, "pca-z2f2z": 150, "pca-factor-cov": 150,
+                                                   "maf-z2f2z": 80, "maf-lagged": 80, "nscore-quantile": 8000, "nscore-rank": 120,
+                                                   "rotation-roundtrip": 2500, "empirical-z2y2z": 8000},
+                                            thorough={"hermite-z2y2z": 900000, "hermite-y2z2y": 240000, "hermite-forward": 120000,
+                                                      "hermite-monotone": 12000, "hermite-db-z": 180000, "hpoly-orthonormal": 3600,
+                                                      "pca-z2f2z": 4500, "pca-factor-cov": 4500, "maf-z2f2z": 2400, "maf-lagged": 2400,
+                                                      "nscore-quantile": 240000, "nscore-rank": 3600, "rotation-roundtrip": 75000,
+                                                      "empirical-z2y2z": 240000})),
     assumptions=["the validity interval of a bounded Hermite anamorphosis is the intersection of its practical and absolute intervals",
                  "the plotting position of VH::normalScore is the one of the code itself (k/(n+1)); no document states it"])
